@@ -39,6 +39,11 @@ func (c *protoStream) RecvMsg(m interface{}) error {
 		return err
 	}
 	msg := m.(unmarshaler)
+	// a message read into is the message received, not a merge with what
+	// the variable held before (an empty frame is the empty message)
+	if r, ok := m.(interface{ Reset() }); ok {
+		r.Reset()
+	}
 	length := binary.BigEndian.Uint32(h[:])
 	if length == 0 {
 		return nil
